@@ -174,3 +174,387 @@ def translate():
         f"def hashCombine ({a} {b} : UInt64) : UInt64 :=\n  {lean}\n\n"
         "end NanoVerif.Gen.CodecConsts\n")
     vlib.write_if_changed(os.path.join(vlib.LEAN, "NanoVerif", "Gen", "CodecConsts.lean"), text)
+
+
+# ---------------------------------------------------------------------------------------------------------
+# an independent python rendering of the wire formats (used by the oracle and to build malformed streams)
+
+M64 = (1 << 64) - 1
+TYPES = {"i8": (1, "s"), "i16": (2, "s"), "i32": (4, "s"), "i64": (8, "s"), "u8": (1, "u"), "u16": (2, "u"), "u32": (4, "u"),
+         "u64": (8, "u"), "f32": (4, "f"), "f64": (8, "f")}
+TNAMES = list(TYPES)
+PARAM_VARIANTS = ["none", "enum", "irange", "frange", "iprange", "fprange", "string"]
+WLEARNERS = ["affine", "stump", "hinge", "dtree", "dense-table", "kbest-table", "ksplit-table", "dstep-table"]
+LINEARS = ["ordinary", "lasso", "ridge", "elastic_net"]
+FACTORIES = {"solver": 46, "loss": 17, "splitter": 2, "tuner": 2, "lsearch0": 4, "lsearchk": 5}   # how many indices to enumerate
+
+
+def hash_combine(seed, h):
+    return seed ^ ((h + 0x9e3779b9 + ((seed << 6) & M64) + (seed >> 2)) & M64)
+
+
+def tensor_hash(ty, payload):
+    size, kind = TYPES[ty]
+    h = 0
+    for i in range(0, len(payload), size):
+        v = int.from_bytes(payload[i:i + size], "little", signed=(kind == "s")) & M64
+        h = hash_combine(h, v)
+    return h
+
+
+def u32(n): return int(n).to_bytes(4, "little")
+def i32(n): return int(n).to_bytes(4, "little", signed=True)
+def u64(n): return int(n).to_bytes(8, "little")
+def i64(n): return int(n).to_bytes(8, "little", signed=True)
+def estr(b): return u32(len(b)) + bytes(b)
+def evec(items): return u64(len(items)) + b"".join(items)
+
+
+def tensor_stream(ty, dims, payload, version=0, rank=None, sizeof=None, hdelta=0):
+    size, _ = TYPES[ty]
+    return (u32(version) + u32(len(dims) if rank is None else rank) + b"".join(i32(d) for d in dims) +
+            u32(size if sizeof is None else sizeof) + u64((tensor_hash(ty, payload) + hdelta) & M64) + bytes(payload))
+
+
+def param_stream(name, tag, fields=b""):
+    return i32(tag) + estr(name) + fields
+
+
+def config_stream(ver, params):
+    return i32(ver[0]) + i32(ver[1]) + i32(ver[2]) + evec(params)
+
+
+def hx(b):
+    return "x" + bytes(b).hex()
+
+
+def unhx(tok):
+    assert tok.startswith("x"), tok
+    return bytes.fromhex(tok[1:])
+
+
+def prod(xs):
+    p = 1
+    for x in xs:
+        p *= x
+    return p
+
+
+# ---------------------------------------------------------------------------------------------------------
+# generator
+
+def _dims(rng, rank, maxprod):
+    """dims in 0..6, biased to the boundary values 0, 1 and 6"""
+    while True:
+        ds = []
+        for _ in range(rank):
+            r = rng.below(10)
+            ds.append(0 if r == 0 else 1 if r <= 2 else 6 if r == 3 else rng.range(2, 5))
+        if prod(ds) <= maxprod:
+            return ds
+
+
+def _example_params(rng):
+    """a few parameters in python encoding (for hand-made configurable streams)"""
+    ps = [param_stream(b"eps", 2, u64(0x3eb0c6f7a0b5ed8d) + u64(0) + u64(0x3ff0000000000000) + u32(0) + u32(1)),
+          param_stream(b"n", 1, i64(rng.range(1, 9)) + i64(1) + i64(10) + u32(1) + u32(1)),
+          param_stream(b"kind", 0, estr(b"a") + evec([estr(b"a"), estr(b"bb")])),
+          param_stream(b"", -1),
+          param_stream(b"s", 5, estr(bytes([rng.below(256) for _ in range(rng.below(6))]))),
+          param_stream(b"pr", 3, i64(2) + i64(5) + i64(0) + i64(9) + u32(1) + u32(0) + u32(1)),
+          param_stream(b"fp", 4, u64(0x3fe0000000000000) + u64(0x3ff0000000000000) + u64(0) + u64(0x4000000000000000) + u32(0) + u32(1) + u32(2))]
+    k = rng.range(0, len(ps))
+    return rng.shuffle(ps)[:k]
+
+
+def malformed(rng, n):
+    """hand-made valid / invalid streams with the expectation the property statement (and the documented formats) give"""
+    ops = []
+    for _ in range(n):
+        ty = rng.choice(TNAMES)
+        size, _k = TYPES[ty]
+        rank = rng.range(1, 3)
+        dims = [rng.range(1, 3) for _ in range(rank)]
+        payload = bytes(rng.below(256) for _ in range(prod(dims) * size))
+        fmt = f"tensor {ty} {rank}"
+        good = tensor_stream(ty, dims, payload)
+        ops.append(f"codec read {fmt} {hx(good)} expect=accept")
+        ops.append(f"codec read {fmt} {hx(good + bytes([rng.below(256)]))} expect=accept")       # trailing bytes are not read
+        ops.append(f"codec read {fmt} {hx(good[:-1])} expect=reject")
+        ops.append(f"codec read {fmt} {hx(tensor_stream(ty, dims, payload, version=rng.range(1, 3)))} expect=reject")
+        ops.append(f"codec read {fmt} {hx(tensor_stream(ty, dims, payload, rank=rank + 1))} expect=reject")
+        ops.append(f"codec read {fmt} {hx(tensor_stream(ty, dims, payload, sizeof=size * 2))} expect=reject")
+        ops.append(f"codec read {fmt} {hx(tensor_stream(ty, dims, payload, hdelta=rng.range(1, 1 << 40)))} expect=reject")
+        k = rng.below(len(payload))
+        bad = bytearray(payload); bad[k] ^= 1 << rng.below(8)
+        ops.append(f"codec read {fmt} {hx(tensor_stream(ty, dims, payload)[:-len(payload)] + bytes(bad))} expect=reject")
+        neg = list(dims); neg[rng.below(rank)] = -rng.range(1, 3)
+        ops.append(f"codec read {fmt} {hx(tensor_stream(ty, neg, payload))} expect=reject")
+        other = rng.choice([t for t in TNAMES if TYPES[t][0] != size])
+        ops.append(f"codec read tensor {other} {rank} {hx(good)} expect=reject")
+    for _ in range(n):
+        ps = _example_params(rng)
+        ops.append(f"codec read configurable {hx(config_stream((0, 0, 1), ps))} expect=accept")
+        ops.append(f"codec read configurable {hx(config_stream((0, 0, 0), ps))} expect=accept")       # older: readable
+        for ver in [(0, 0, 2), (0, 1, 0), (1, 0, 0), (0, 1, -5), (1, -1, -1)]:
+            ops.append(f"codec read configurable {hx(config_stream(ver, ps))} expect=reject")         # newer: refused
+        ops.append(f"codec read configurable {hx(config_stream((-1, 7, 7), ps))} expect=accept")
+        ops.append(f"codec read configurable {hx(i32(0) + i32(0) + i32(1) + u64(len(ps) + 1) + b''.join(ps))} expect=reject")
+        for tag in (6, 7, -2, 100, -2147483648):
+            ops.append(f"codec read param {hx(param_stream(b'p', tag, bytes(16)))} expect=reject")
+        fid = rng.choice(["solver", "loss", "tuner", "splitter", "lsearch0", "lsearchk"])
+        ops.append(f"codec read factory {fid} 0 {hx(estr(b'no-such-id') + config_stream((0, 0, 1), ps))} expect=reject")
+        ops.append(f"codec read factory {fid} 0 {hx(estr(b'') + config_stream((0, 0, 1), ps))} expect=reject")
+        ops.append(f"codec read factory solver 0 {hx(estr(b'lbfgs') + config_stream((0, 0, 1), ps))} expect=accept")
+        ops.append(f"codec read factory loss 0 {hx(estr(b'lbfgs') + config_stream((0, 0, 1), ps))} expect=reject")
+        ops.append(f"codec read wlearner {hx(estr(b'stumpy') + config_stream((0, 0, 1), ps))} expect=reject")
+        feat = lambda t: estr(t) + i64(1) + i64(2) + i64(3) + estr(b"f") + evec([estr(b"l0"), estr(b"")])
+        ops.append(f"codec read feature {hx(feat(b'float32'))} expect=accept")
+        ops.append(f"codec read feature {hx(feat(b'int8xyz'))} expect=accept")     # from_string<enum>: prefix match
+        ops.append(f"codec read feature {hx(feat(b'xint8'))} expect=reject")
+        ops.append(f"codec read feature {hx(feat(b''))} expect=reject")
+    return ops
+
+
+def gen(rng, tier):
+    ops = []
+    cp = os.path.join(vlib.VERIF, "corpus", "C15", "ops.txt")
+    if os.path.exists(cp):
+        ops += [l.strip() for l in open(cp) if l.strip() and not l.startswith("#")]
+    thorough = tier == "thorough"
+    seed = lambda: rng.range(1, 10 ** 9)
+
+    # 1. tensors: 10 scalar types x rank 1..5 x dims 0..6
+    for ty in TNAMES:
+        size, _ = TYPES[ty]
+        for rank in range(1, 6):
+            for _ in range(4 if thorough else 1):
+                ds = _dims(rng, rank, (12000 if thorough else 2400) // size)
+                ops.append(f"codec obj tensor {ty} {rank} {' '.join(map(str, ds))} {seed()}")
+    # a few large ones (all dims 6 at rank 4/5) with 1-byte scalars, so that 'dims up to 6' is reached at every rank
+    for ty, ds in ([("u8", [6, 6, 6, 6, 6]), ("i8", [6, 6, 6, 6])] if thorough else [("i8", [6, 6, 6, 6])]):
+        ops.append(f"codec obj tensor {ty} {len(ds)} {' '.join(map(str, ds))} {seed()}")
+
+    # 2. parameters, configurables, features
+    for v in PARAM_VARIANTS:
+        for _ in range(12 if thorough else 4):
+            ops.append(f"codec obj param {v} {seed()}")
+    for n in range(0, 9):
+        for _ in range(4 if thorough else 1):
+            ops.append(f"codec obj configurable {n} {seed()}")
+    for _ in range(60 if thorough else 12):
+        ops.append(f"codec obj feature {seed()}")
+
+    # 3. every id of the factories of plain configurables, randomly configured
+    for which, n in FACTORIES.items():
+        for k in range(n):
+            for _ in range(3 if thorough else 1):
+                ops.append(f"codec obj factory {which} @{k} {seed()}")
+
+    # 4. weak learners (unfitted prototypes and fitted on tiny datasets), linear models, gboost models
+    for wid in WLEARNERS:
+        ops.append(f"codec obj wlearner {wid} 0 {seed()}")
+        for _ in range(8 if thorough else 2):
+            ops.append(f"codec obj wlearner {wid} {rng.range(12, 50)} {seed()}")
+    for lid in LINEARS:
+        ops.append(f"codec obj linear {lid} 0 {seed()}")
+        for _ in range(3 if thorough else 1):
+            ops.append(f"codec obj linear {lid} {rng.range(12, 30)} {seed()}")
+    for _ in range(10 if thorough else 3):
+        k = rng.range(1, 3)
+        protos = rng.shuffle(WLEARNERS)[:k]
+        ops.append(f"codec obj gboost {rng.range(20, 50)} {rng.range(1, 4)} {seed()} {k} {' '.join(protos)}")
+    ops.append(f"codec obj gboost 0 2 {seed()} 2 affine dtree")
+
+    # 5. single-byte corruptions of tensor headers and payloads
+    for ty in TNAMES:
+        size, _ = TYPES[ty]
+        for rank in range(1, 6):
+            if not thorough and (rank + TNAMES.index(ty)) % 3 != 0:
+                continue
+            ds = _dims(rng, rank, 6)
+            ops.append(f"codec corrupt {ty} {rank} {' '.join(map(str, ds))} {seed()} all")
+    for ty in TNAMES:
+        size, _ = TYPES[ty]
+        for rank in range(1, 6):
+            for _ in range(3 if thorough else 1):
+                ds = _dims(rng, rank, 400 // size)
+                ops.append(f"codec corrupt {ty} {rank} {' '.join(map(str, ds))} {seed()} bits")
+                ds = _dims(rng, rank, 1600 // size)
+                ops.append(f"codec corrupt {ty} {rank} {' '.join(map(str, ds))} {seed()} xor {rng.range(1, 255)}")
+    # zero-size tensors: header corruptions that keep the size 0 are accepted by the implementation (outside the statement)
+    for _ in range(12 if thorough else 4):
+        rank = rng.range(2, 5)
+        ds = [rng.range(1, 6) for _ in range(rank)]
+        ds[rng.below(rank)] = 0
+        ops.append(f"codec corrupt {rng.choice(TNAMES)} {rank} {' '.join(map(str, ds))} {seed()} {'all' if thorough else 'bits'}")
+
+    # 6. hand-made malformed streams
+    ops += malformed(rng, 12 if thorough else 3)
+    return ops
+
+
+# ---------------------------------------------------------------------------------------------------------
+# oracle: the property statement evaluated on the implementation's answer
+
+def _split(aug):
+    parts = aug.split(" # ")
+    return parts[0].split(), [p.split() for p in parts[1:]]
+
+
+def _fmt_len(head):
+    """number of tokens of the <fmt> starting at head[2]"""
+    k = head[2]
+    if k == "tensor":
+        return 3
+    if k == "factory":
+        return 3 + int(head[4])
+    return 1
+
+
+def _kind(aug_or_op):
+    t = aug_or_op.split()
+    if len(t) < 3:
+        return "?"
+    if t[1] == "corrupt":
+        return "tensor"
+    k = t[2]
+    if k == "factory" and len(t) > 3:
+        return "factory:" + t[3]
+    return k
+
+
+def oracle(aug, res):
+    head, tails = _split(aug)
+    op = head[1]
+    r = res.split()
+    if not r or r[0] in ("throw", "bad-op"):
+        return f"generator/harness problem: {res[:120]}"
+    if op == "obj":
+        nf = _fmt_len(head)
+        fmt = " ".join(head[2:2 + nf])
+        S = unhx(head[2 + nf])
+        dump_orig = tails[0] if tails else []
+        if r[0] != "ok":
+            return f"reread-rejected: the complete stream of a valid object is refused; replay: codec read {fmt} {hx(S)} expect=accept"
+        S2 = unhx(r[1]); eq, pred, nacc = r[2], r[3], int(r[4])
+        offs = [int(x) for x in r[5:5 + nacc]]
+        dump_re = r[5 + nacc:]
+        if offs:
+            k = offs[0]
+            return (f"prefix-accepted: a strict prefix ({k} of {len(S)} bytes; {len(offs)} offsets in all: {offs[:8]}) is read "
+                    f"successfully; replay: codec read {fmt} {hx(S[:k])} expect=reject")
+        if S2 != S:
+            return f"rewrite-differs: the re-read object serializes to different bytes ({len(S2)} vs {len(S)})"
+        if eq != "1":
+            return "reread-not-equal: the re-read object differs from the written one (operator== / parameters)"
+        if pred != "1":
+            return "prediction-differs: predictions of the re-read model are not bit-identical"
+        if dump_re != dump_orig:
+            return f"fields-differ: dumped fields differ after the round trip: {' '.join(dump_orig)[:120]} vs {' '.join(dump_re)[:120]}"
+        if head[2] == "tensor":
+            # layout of the stream from the property's anchors: version, rank, int32 dims, sizeof, hash(content), content
+            spec = tails[1]
+            ty, rank = spec[1], int(spec[2]); dims = [int(x) for x in spec[3:3 + rank]]
+            size = TYPES[ty][0]
+            hl = 4 + 4 + 4 * rank + 4 + 8
+            payload = S[hl:]
+            if len(payload) != prod(dims) * size or S != tensor_stream(ty, dims, payload):
+                return "tensor-layout: the stream is not version, rank, dims, sizeof, hash(content), content"
+        return None
+    if op == "corrupt":
+        ty, rank = head[3], int(head[4])
+        S = unhx(head[5])
+        fmt = f"tensor {ty} {rank}"
+        if r[0] != "ok":
+            return f"corrupt: unexpected answer {res[:80]}"
+        hl = int(r[1]); nacc = int(r[2])
+        if hl != 4 + 4 + 4 * rank + 4 + 8:
+            return "corrupt: header length"
+        step = 2 + (rank + 4)
+        body = r[3:]
+        if len(body) != nacc * step:
+            return "corrupt: malformed answer"
+        for i in range(nacc):
+            e = body[i * step:(i + 1) * step]
+            p, v = int(e[0]), int(e[1])
+            dims = [int(x) for x in e[3:3 + rank]]
+            nbytes = int(e[3 + rank])
+            bad = bytearray(S); bad[p] = v
+            replay = f"replay: codec read {fmt} {hx(bad)} expect=reject"
+            if p >= hl:
+                return f"payload-corruption-accepted: payload byte {p - hl} changed {S[p]:#04x} -> {v:#04x} and the stream is still read; {replay}"
+            # header: only a dimension change that keeps the element count (0) is known to slip through (noted in DESIGN.md §4 C15)
+            if not (8 <= p < 8 + 4 * rank) or nbytes != 0 or prod(dims) != 0:
+                return f"header-corruption-accepted: header byte {p} changed to {v:#04x}, read as dims {dims} with {nbytes} payload bytes; {replay}"
+        return None
+    if op == "read":
+        exp = [t for ts in tails for t in ts if t.startswith("expect=")]
+        if exp:
+            want = exp[0][7:]
+            got = "accept" if r[0] == "ok" else "reject"
+            if want != got:
+                tag = "malformed-accepted" if want == "reject" else "valid-rejected"
+                return f"{tag}: expected {want}, the implementation answers {res[:80]}"
+        return None
+    return f"unknown op {op}"
+
+
+def classify(op, kind, detail):
+    t = op.split()
+    what = t[1] if len(t) > 1 else "?"
+    k = _kind(op)
+    if kind == "oracle":
+        tag = detail.split(":")[0] if ":" in detail[:40] else "oracle"
+        return f"{tag}:{k}"
+    return f"{kind}:{what}:{k}"
+
+
+def nontrivial(op):
+    t = op.split()
+    if t[1] == "obj":
+        if t[2] == "tensor":
+            rank = int(t[4]); return prod(int(x) for x in t[5:5 + rank]) >= 2
+        if t[2] == "param":
+            return t[3] != "none"
+        if t[2] == "configurable":
+            return int(t[3]) >= 1
+        return t[2] != "feature" or True
+    if t[1] == "corrupt":
+        rank = int(t[3]); return prod(int(x) for x in t[4:4 + rank]) >= 2
+    return True
+
+
+def distribution(ops):
+    d = {}
+    for op in ops:
+        t = op.split()
+        if t[1] == "obj":
+            k = f"obj/{t[2]}" + (f"/{t[3]}" if t[2] in ("factory", "param") else "") + (f"/rank{t[4]}" if t[2] == "tensor" else "")
+            if t[2] in ("wlearner", "linear"):
+                k += "/fitted" if t[4] != "0" else "/unfitted"
+        elif t[1] == "corrupt":
+            rank = int(t[3]); k = f"corrupt/{t[5 + rank]}/rank{rank}"
+        else:
+            k = f"read/{t[2]}/" + (t[-1] if t[-1].startswith("expect=") else "-")
+        d[k] = d.get(k, 0) + 1
+    return d
+
+
+def shrink_candidates(op):
+    """smaller tensors / fewer parameters / fewer samples first"""
+    t = op.split()
+    out = []
+    if t[1] == "obj" and t[2] == "tensor" or t[1] == "corrupt":
+        b = 5 if t[1] == "obj" else 4
+        rank = int(t[b - 1])
+        for i in range(rank):
+            d = int(t[b + i])
+            for nd in sorted({0, 1, d // 2, d - 1}):
+                if 0 <= nd < d:
+                    u = list(t); u[b + i] = str(nd); out.append(" ".join(u))
+    elif t[1] == "obj" and t[2] == "configurable" and int(t[3]) > 0:
+        u = list(t); u[3] = str(int(t[3]) - 1); out.append(" ".join(u))
+    elif t[1] == "obj" and t[2] in ("wlearner", "linear") and int(t[4]) > 12:
+        u = list(t); u[4] = str(max(12, int(t[4]) // 2)); out.append(" ".join(u))
+    return out
